@@ -83,3 +83,64 @@ func VP_C19_Traverse() {
 	vpObserveInt("first-post", int(post[0].Name[1]-'0'))
 	vpReach("end")
 }
+
+// VP_C18_Traversal: PreOrder/PostOrder can be stopped after any number of
+// nodes: no further callback, no panic, the nodes seen are the leading nodes.
+func VP_C18_Traversal() {
+	n := vpCase("n")
+	nodes := vpTree(n)
+	root := nodes[0]
+	post := vpCase("post") == 1
+	var full []*Node
+	if post {
+		full = vpPost(root, nil)
+	} else {
+		full = vpPre(root, nil)
+	}
+	stop := vpChoice("stop", n)
+	var got []*Node
+	after := 0
+	p := vpPanics(func() {
+		seq := root.PreOrder()
+		if post {
+			seq = root.PostOrder()
+		}
+		declined := false
+		seq(func(nd *Node) bool {
+			if declined {
+				after++
+				return false
+			}
+			got = append(got, nd)
+			if len(got) > stop {
+				declined = true
+				return false
+			}
+			return true
+		})
+	})
+	vpAssert(!p, "stopping a traversal early does not panic")
+	vpAssert(after == 0, "no callback after the consumer declined")
+	vpAssert(vpSameNodes(got, full[:stop+1]), "the nodes seen are the leading nodes of the full traversal")
+	// the same through a range statement with break (compiler-generated yield wrapper)
+	var got2 []*Node
+	p = vpPanics(func() {
+		if post {
+			for nd := range root.PostOrder() {
+				got2 = append(got2, nd)
+				if len(got2) > stop {
+					break
+				}
+			}
+		} else {
+			for nd := range root.PreOrder() {
+				got2 = append(got2, nd)
+				if len(got2) > stop {
+					break
+				}
+			}
+		}
+	})
+	vpAssert(!p && vpSameNodes(got2, full[:stop+1]), "range ... break over a traversal")
+	vpReach("end")
+}
